@@ -1,6 +1,6 @@
 (** C02 - Emitted frames are exactly the ISO-15765-2 segmentation of the payload. *)
 From IsoTp Require Import Base.Prelude Model.Layer Spec.ConfigSpec Spec.FrameSpec Spec.Segment
-  Proofs.FramesP Proofs.TxP Proofs.IgnoreP.
+  Proofs.FramesP Proofs.TxP Proofs.IgnoreP Proofs.CoopP.
 
 (** Every frame the layer builds (data frames and Flow Control alike) is the reference frame:
     the data followed by the configured padding byte up to the reference target length, the
@@ -81,8 +81,25 @@ Proof.
   destruct (Z.ltb_spec size 0); [lia|]. destruct (Z.ltb_spec 0xFFFFFFFF size); [reflexivity|lia].
 Qed.
 
+(** Run level, cooperative peer ([coop]: grant with a ContinueToSend whenever the sender waits for one,
+    otherwise let the separation time pass and run the Consecutive Frame branch; Proofs/CoopP.v): the
+    frames emitted for a multi-frame request are EXACTLY the reference segmentation, in order; the
+    request is completed once, with success; the sender is idle again.  Any block size and separation
+    time in the grant, any payload of 1..2^32-1 bytes that does not fit a Single Frame. *)
+Theorem C02_cooperative_run : forall c, params_ok (c_p c) -> 0 < p_tbs_ns (c_p c) ->
+  forall fc, fc_status fc = FS_CTS -> forall a, p_tx_dl (c_p c) <= a ->
+  forall s rid payload extra t,
+  1 <= zlen payload < 2 ^ 32 -> is_single c (zlen payload) = false ->
+  let r := fresh_req rid payload extra t in
+  exists ff s1,
+    start_request c (s <| active := Some r |>) r a = SRDone s1 [] (Some ff) /\
+    let '(cfs, evs, s') := coop c fc a (2 * Z.to_nat (n_cf c (zlen payload))) s1 [] [] in
+    ff :: cfs = seg c t payload /\ evs = [EDone rid true] /\ tx_state s' = TxIdle /\ active s' = None.
+Proof. exact multi_frame_run. Qed.
+
 Print Assumptions C02_wellformed.
 Print Assumptions C02_single.
 Print Assumptions C02_first_frame.
 Print Assumptions C02_consecutive_frame.
 Print Assumptions C02_refuse.
+Print Assumptions C02_cooperative_run.
